@@ -231,6 +231,17 @@ def classify(mm, start_cols, rng, K):
     what = mm.what
     if "number of compartments" in what and "METABOLITE" in ird.cnames and "METABOLITE" not in td.names:
         return "C02/metabolite-code-stale"
+    # a second add_indirect_effect (or another PD / metabolite extension adding a compartment of a name that exists)
+    # gives a model with two compartments of one name: amounts, flows and the $MODEL record are then ambiguous
+    mc = getattr(mm, "model_cnames", [])
+    if (ird.cs is not None and len(set(ird.cnames)) < len(ird.cnames)) or len(set(mc)) < len(mc):
+        return "C02/duplicate-compartment-name"
+    if "ETA_DUMMY" in what and stage == "written-text-vs-reread-model":
+        import re as _re0
+
+        abbr = "\n".join(c for n, c in td.rm.records if n.startswith("ABBR"))
+        if _re0.search(r"REPLACE\s+eta_dummy\s*=", abbr) and "ETA_DUMMY" in _code_of(td).upper():
+            return "C02/eta-dummy-abbr-case-mismatch"
     if stage == "written-text-vs-reread-model" and td.rm.des and "d/dt of compartment" in what:
         # delta: the very same written text agrees with the in-memory model (judged just before) - so it is
         # pharmpy's reading of its own $DES output that is not equivalent
@@ -320,6 +331,37 @@ def classify(mm, start_cols, rng, K):
     except denote.Mismatch:
         pass
     return None
+
+
+def certify(model, mm, wd, rng, K):
+    """True when pharmpy contradicts itself on this model: M vs text and read(text) vs text give different verdicts."""
+    from pharmpy.modeling import read_model, write_model
+
+    from vp import denote
+
+    stage = mm.pair[3] if getattr(mm, "pair", None) else None
+    if stage == "written-text-vs-reread-model" or stage == "written-text-vs-model":
+        return True  # the code-vs-model comparison of the same step had passed: M agrees with the text, M' does not
+    if stage != "code-vs-model":
+        return False
+    d = wd / "cert"
+    d.mkdir(parents=True, exist_ok=True)
+    try:
+        path = d / "m.mod"
+        write_model(model, path, force=True)
+        re_model = read_model(path)
+        td2 = denote.TextDen(path.read_text())
+        ird2 = denote.IRDen(re_model)
+        recs = mm.pair[2]
+        dose_info = denote.dose_info_from_records(td2, recs) if td2.rm.advan else None
+        sc = Case()
+        denote.compare_parameters(td2, ird2, sc)
+        j = denote.compare_dynamic(td2, ird2, recs, rng, K, sc, dose_info=dose_info)
+        return bool(j)
+    except Exception:
+        return False
+    finally:
+        shutil.rmtree(d, ignore_errors=True)
 
 
 def symptom(what):
@@ -444,6 +486,10 @@ def run_case(rng, idx, tier):
                 res = judge_step(model, c, random.Random(jseeds[step_no]), K, wd, step_no,
                                  do_write=(step_no == len(hist) - 1 or wflags[step_no]))
             except denote.Mismatch as mm:
+                try:
+                    mm.model_cnames = list(model.statements.ode_system.compartment_names)
+                except Exception:
+                    mm.model_cnames = []
                 key = classify(mm, start_cols, random.Random(7), K)
                 detail = {"start": sname, "applied": list(applied), "code": model.code.splitlines(), "detail": mm.detail}
                 if key is None:
@@ -456,6 +502,11 @@ def run_case(rng, idx, tier):
                     if minimal is not None:
                         key = f"C02/h:{start_class(sname)}:{'>'.join(minimal)}:{symptom(mm.what)}"
                         detail["minimal_history"] = minimal
+                        # certificate that the defect is pharmpy's and not the reference reader's: of the in-memory
+                        # model M and pharmpy's own re-reading M' of the code it generated from M, exactly one agrees
+                        # with the reference reading of that code - so M and read(write(M)) differ
+                        detail["self_contradiction"] = certify(model, mm, wd, random.Random(jseeds[step_no]), K)
+                        c.hit("certified_self_contradiction" if detail["self_contradiction"] else "not_certified")
                 c.hit("classified" if key else "unclassified")
                 c.violate(key, f"after {applied}: {mm.what}", detail)
                 break
